@@ -307,3 +307,64 @@ def rand_grammar(rng, ops, max_rules=3, depth=3):
 
 def rand_input(rng, maxlen, alphabet=(A, B)):
     return [rng.choice(alphabet) for _ in range(rng.randrange(maxlen + 1))]
+
+
+# ---------------------------------------------------------------- productivity, naming
+
+def productive_table(rules):
+    """least fixpoint: does rule k derive some string (ignoring left-recursion curtailment)?"""
+    tab = [False] * len(rules)
+    changed = True
+    while changed:
+        changed = False
+        for k, r in enumerate(rules):
+            if not tab[k] and produces(r, tab):
+                tab[k] = True
+                changed = True
+    return tab
+
+
+def produces(e, tab):
+    t = e[0]
+    if t in ('rune', 'empty', 'end', 'opt'):
+        return True
+    if t == 'ref':
+        return tab[e[1]]
+    if t in ('memo', 'name', 'ltrim', 'rtrim'):
+        return produces(e[2], tab)
+    if t in ('suppress', 'single'):
+        return produces(e[1], tab)
+    if t in ('any', 'choice'):
+        return any(produces(x, tab) for x in e[1])
+    if t == 'seq':
+        kind, ps = e[1], e[5]
+        if kind == 'SeqOf':
+            return all(produces(x, tab) for x in ps)
+        if kind in ('SeqTry', 'SeqFirstOrAll'):
+            return produces(ps[0], tab)
+        return kind[1] or produces(ps[0], tab)
+    raise ValueError(t)
+
+
+def all_productive(rules, root):
+    tab = productive_table(rules)
+    return all(tab) and produces(root, tab)
+
+
+def name_alternatives(e, counter):
+    """wrap every Any/Choice in a Name"""
+    t = e[0]
+    if t in ('any', 'choice'):
+        counter[0] += 1
+        return ('name', [65, 48 + counter[0] % 10, 48 + (counter[0] // 10) % 10], (t, [name_alternatives(x, counter) for x in e[1]]))
+    if t == 'seq':
+        return e[:5] + ([name_alternatives(x, counter) for x in e[5]],)
+    if t in ('memo', 'name', 'ltrim', 'rtrim'):
+        return (t, e[1], name_alternatives(e[2], counter))
+    if t in ('opt', 'suppress', 'single'):
+        return (t, name_alternatives(e[1], counter))
+    return e
+
+
+def has_op(rules, root, ops):
+    return any(e[0] in ops for e in itertools.chain(*[walk(r) for r in rules + [root]]))
